@@ -34,3 +34,13 @@ add("C19", "exploration", "ENUM",
     "Exhaustive within: up to 3 nodes and 3 edges plus 4 nodes with 4 unit-weight edges (quick); up to 3 nodes and 4 edges, 4 nodes and 3 edges, 4 nodes with 4 edges of weight {1,2}, Int64 weights (thorough); weights {1,2,0,missing}, -1 for Bellman-Ford / Floyd-Warshall, (capacity, cost) pairs for min-cost flow; every source/target.",
     "Input enumeration rather than state-space search; heuristic algorithms (community detection) checked for structural sanity and the modularity value only; listed under-determined conventions are tolerated and counted in evidence.",
     "DESIGN.md §3/C19")
+add("C18", "model_checking", "SEQ+ENUM",
+    "explicit-state exploration of every insert / re-insert / remove history (full-history keys, two independent builds) on the real HnswIndex / QuantizedHnswIndex with a per-step oracle over all queries x metrics x k x ef, plus bounded-exhaustive enumeration of distance kernels, exact search, zone map, quantisers, vector storage and GrafeoDB vector APIs against f64 definitions",
+    "All histories up to depth 3-4 (quick) / 5-7 on reduced menus (thorough) for seeds {0,1,2}, m {2,16}, dimensions 1-3: every search result has at most k distinct, currently present ids with distances equal to the scalar definition, sorted, batch == single; exact search is exactly the k nearest; kernels agree with the plain definitions for every dimension 1..=33, 64, 65; quantiser errors within one step.",
+    "The layer-0 graph is private, so 'returns k when k are reachable' is checked as non-emptiness only (short results are counted); only the AVX2 kernel path is reachable on this host; batch search is compared on a deterministic subset of states in the quick tier.",
+    "DESIGN.md §3/C18")
+add("C20", "model_checking", "SCHED",
+    "stateless model checking of real threads: preemption-bounded exhaustive DFS (iterative context bounding) over thread interleavings of the real code, with parking_lot replaced via [patch] by a shim over shuttle primitives; brute-force linearizability against sequential executions of the real object plus quiescent invariants",
+    "For each of ~17 two/three-thread scenarios forced to collide on the same entities (node/edge create and delete, label and property updates with a property index, triple insert/remove/clear, begin/write/commit/gc, memory grant/release/resize at the hard limit, statistics refresh and scans) EVERY interleaving at lock-acquisition granularity with at most 3 (quick) / 5 (thorough) preemptions is executed; the recorded call/return history must equal some sequential order consistent with real time; ids unique, acknowledged creations visible, derived indexes agree with primary data at quiescence, commit epochs unique and increasing, memory accounting exact, no deadlock, no panic.",
+    "Std atomics run sequentially consistently under the scheduler (weak-memory effects out of reach); DashMap shard locks, rayon and crossbeam are not intercepted; the WAL (tokio dependency) and HNSW scenarios are not part of this commit's scenario list.",
+    "DESIGN.md §3/C20")
